@@ -10,11 +10,20 @@ ids = sys.argv[1:] or [f'C{i:02d}' for i in range(1, 21)]
 OTHER = {('C03', 1, 2): ['C11'], ('C19', 1, 3): ['C20'], ('C03', 2, 3): ['C17'], ('C12', 2, 1): ['C20'], ('C19', 2, 3): ['C20'], ('C20', 2, 2): [],
          ('C01', 3, 1): ['C09'], ('C10', 3, 1): ['C19'], ('C10', 3, 3): ['C07']}
 ROUNDS = [int(x) for x in os.environ.get('ROUNDS', '1,2,3').split(',')]
-def run(check, tier):
+def run1(check, tier, nocross):
     env = dict(os.environ, VERIF_NO_SANITIZE='1')
+    if nocross: env['VERIF_NO_CROSS'] = '1'
     out = subprocess.run(['/verif/check', check, '--tier', tier], capture_output=True, text=True, cwd='/verif', env=env)
     sigs = sorted(set(re.findall(r'signature: (.*)', out.stdout)))
     return {'exit': out.returncode, 'detected': out.returncode == 1, 'signatures': sigs[:6]}
+def run(check, tier):
+    # the property's own workload first (fast); the cross workloads (universal monitors, DESIGN §2.8)
+    # only add findings, so they are run only when the own workload stays silent
+    r = run1(check, tier, True)
+    if not r['detected'] and tier == 'quick':
+        r = run1(check, tier, False)
+        r['needed_cross_workloads'] = r['detected']
+    return r
 for pid in ids:
     for rnd, d in ((1, f'/verif/seeded/{pid}'), (2, f'/verif/seeded/{pid}/round2'), (3, f'/verif/seeded/{pid}/round3')):
         if not os.path.isdir(d) or rnd not in ROUNDS: continue
